@@ -59,7 +59,7 @@ func genNumeric(r *rng.R) (vals []any, class int) {
 			}
 			vals[i] = f
 			if r.Chance(1, 5) {
-				vals[i] = i64(1<<40) * (1 - 2*r.Intn(2))
+				vals[i] = (1 << 20) * (1 - 2*r.Intn(2))
 			}
 		}
 		// make sure of the overflow: the first six factors alone exceed 1e360
